@@ -24,6 +24,8 @@ func checkC19(r *core.Run) {
 	ruleKeyParams(r, "T-keyparams")
 	r.Rule("CAP-period: Shard.CreatedAt / Shard.Duration are assigned only in Complete and in the expiry roll-over; an assigned-but-unserved shard has no period, which is what the report filter's unexpired test relies on to mean 'the accused holds it'")
 	rulePeriodWriters(r, "CAP-period")
+	r.Rule("T-flag-reset: in the fault handlers a boolean that decides inside a loop whether the current entry is recorded is not carried over from the previous entry (a flag set by one valid entry must not wave the later entries of the same message through)")
+	ruleFlagReset(r, "T-flag-reset", "sao/keeper.msgServer.ReportFaults", "sao/keeper.msgServer.RecoverFaults")
 	r.Assume(aDeps)
 	r.Assume(aCG)
 
